@@ -2,7 +2,7 @@ SPECIFICATION Spec
 CONSTANTS
   Denoms = {"atele", "btok"}
   MaxReward = 3
-  MaxEntries = 2
+  MaxEntries = 3
   MaxPool = 5
   InitPools <- MCInitPools
 INVARIANTS TypeOK PoolNonNegative MovedIsDue NeverHalts
